@@ -141,7 +141,7 @@ def injector_state(ctx, cname, tr):
     if not loads and cname == "LabelDirichletInjector":
         ctx.ob("LIVE", site, "delegates to LabelProbabilityInjector (fresh instance)", bool([e for e in tr.calls() if e.callee == ("new", "LabelProbabilityInjector")]), "")
         return
-    ctx.ob("ROLE", site, "result goes through _postprocess", bool(loads), "")
+    ctx.anchor(site, "result goes through _postprocess", bool(loads), "")
     for e in loads:
         ok = not T.mentions(e.value, lambda a: a == ("attr", "_columns"))
         ctx.ob("LIVE", site, "_postprocess restores the container type recorded for this call's input", ok,
